@@ -245,6 +245,159 @@ class Gen:
         return L
 
 
+# ---- targeted scenarios ---------------------------------------------------------------
+# Random histories practically never produce the shapes below; each is a template with
+# randomised parameters (all choices from the same PRNG).
+
+def _tail(L):
+    L += ["dropcoll", "cleanup", "endhist"]
+    return L
+
+
+def scen_budget(g, name, typ):
+    """more than B (61) children queued for one poll, all answering Pending quietly: the poll must
+    stop on its budget AND wake its task; the rest must be polled by the following polls; bursts of
+    external wakes > B; many children finishing in one call (merges: sources ending together)"""
+    r = g.r
+    N = r.choice([62, 63, 70, 100, 125, 140])
+    L = ["hist " + name]
+    quiet = lambda k, fin: ";".join([":P"] * k + ([fin] if fin else []))
+    clone = lambda k, fin: ";".join(["c:P"] + [":P"] * (k - 1) + ([fin] if fin else []))
+    nid = 1
+    if typ in ("FUB", "FOB"):
+        L += ["new %s cap=%d" % (typ, N + r.choice([0, 0, 3])), "build"]
+    elif typ in ("FU", "FO", "MU"):
+        L += ["new %s %s" % (typ, r.choice(["cap=1", "cap=2", "new=1", "cap=64"])), "build"]
+    elif typ == "MB":
+        L += ["new MB"]
+        for _ in range(N):
+            k = r.choice([1, 2, 3])
+            fin = r.choice([":E", ":E", ":I;:E", None])
+            L.append("init %d %s" % (nid, (clone if r.random() < 0.5 else quiet)(k, fin))); nid += 1
+        L.append("build")
+    elif typ in ("JA", "TJA"):
+        L += ["new " + typ]
+        for _ in range(N):
+            k = r.choice([1, 2, 3])
+            fin = ":X" if (typ == "TJA" and r.random() < 0.02) else ":R"
+            L.append("init %d %s" % (nid, (clone if r.random() < 0.5 else quiet)(k, fin))); nid += 1
+        L.append("build")
+    else:  # adapters
+        n = r.choice([62, 65, 66, 70, 100, 130])
+        L += ["new %s n=%d" % (typ, n)]
+        for _ in range(n + r.choice([5, 40])):
+            k = r.choice([0, 1, 2, 3])
+            L.append("up item " + ((clone if r.random() < 0.5 else quiet)(k, ":R") if k else ":R")); nid += 1
+        L += ["up end", "build"]
+    if typ in ("FUB", "FOB", "FU", "FO", "MU"):
+        for _ in range(N):
+            k = r.choice([1, 2, 3, 4])
+            if typ == "MU":
+                fin = r.choice([":E", ":E", ":I;:E", None])
+            else:
+                fin = r.choice([":R", ":R", None])
+            L.append("push %d %s" % (nid, (clone if r.random() < 0.5 else quiet)(k, fin))); nid += 1
+    nh = 0
+    for rnd in range(r.choice([3, 5, 8])):
+        L.append("poll %d" % r.choice([1, 2, 3]))
+        if r.random() < 0.5:
+            L.append("poll %d" % r.choice([1, 2, 3]))
+        # a burst of external wakes (handles 0.. were cloned by the first polls)
+        burst = r.choice([0, 5, 62, 70, 130])
+        hs = list(range(0, max(1, min(N, 70 * (rnd + 1)))))
+        r.shuffle(hs)
+        for h in hs[:burst]:
+            L.append("env w%d" % h)
+        if r.random() < 0.3:
+            L.append("obs")
+    for _ in range(r.choice([2, 4, 8])):
+        L.append("poll %d" % r.choice([1, 2, 3]))
+    g.stats["types"][typ] = g.stats["types"].get(typ, 0) + 1
+    return _tail(L)
+
+
+def scen_groups(g, name, typ):
+    """unbounded collections with several groups: a long-lived pending child in an early group, the
+    last group filled and drained over and over (allocation must not grow; the drained last group is
+    kept), woken victims in early groups while ready children keep arriving in the last group
+    (no starvation), drained groups in the middle (discarded), polls after the last group drained"""
+    r = g.r
+    if typ not in ("FU", "MU", "FO"):
+        typ = r.choice(["FU", "MU", "FO"])
+    L = ["hist " + name, "new %s cap=%d" % (typ, r.choice([1, 1, 2, 3])), "build"]
+    nid = 1
+    src = typ == "MU"
+    never = "c:P;:P;:P;:P;:P;:P;:P;:P;:P;:P;:P;:P"
+    ready = ":I;:E" if src else ":R"
+    # victims in the early groups
+    nv = r.choice([1, 2, 3])
+    for _ in range(nv):
+        L.append("push %d %s" % (nid, never)); nid += 1
+    L.append("poll 1")
+    cycles = r.choice([5, 12, 30])
+    for c in range(cycles):
+        k = r.choice([1, 2, 3, 6, 12])
+        for _ in range(k):
+            L.append("push %d %s" % (nid, ready if r.random() < 0.85 else ":P;" + ready)); nid += 1
+        if r.random() < 0.5:
+            L.append("env w%d" % r.randrange(nv))
+        for _ in range(k + r.choice([0, 1, 2])):
+            L.append("poll %d" % r.choice([1, 2]))
+        if r.random() < 0.2:
+            L.append("obs")
+    for _ in range(4):
+        L.append("poll 1")
+    g.stats["types"][typ] = g.stats["types"].get(typ, 0) + 1
+    return _tail(L)
+
+
+def scen_reuse(g, name, typ):
+    """completion, stale wakes of the finished child's waker (by ref and by value, twice), slot
+    reuse by a new child, wakes of other held children in between, drop of the collection with
+    handles outstanding, handles used afterwards"""
+    r = g.r
+    if typ not in ("FUB", "FU", "MB", "MU", "FOB", "FO"):
+        typ = r.choice(["FUB", "FU", "FOB", "FO", "MU"])
+    cap = r.choice([2, 3, 4, 6])
+    L = ["hist " + name]
+    src = typ in ("MB", "MU")
+    fin = ":E" if src else ":R"
+    nid = 1
+    if typ == "MB":
+        L.append("new MB")
+        for _ in range(cap):
+            L.append("init %d c.c:P;c:P;%s" % (nid, fin)); nid += 1
+        L.append("build")
+    else:
+        L += ["new %s cap=%d" % (typ, cap if typ in ("FUB", "FOB") else r.choice([1, 2, 4])), "build"]
+        for _ in range(cap):
+            L.append("push %d c.c:P;c:P;%s" % (nid, fin)); nid += 1
+    L.append("poll 1")          # every child clones two handles: 0 .. 2cap-1
+    L.append("poll 1")
+    nh = 2 * cap
+    for rnd in range(r.choice([2, 4, 6])):
+        for _ in range(r.choice([1, 2, 4])):
+            h = r.randrange(nh + cap)
+            L.append("env %s%d" % (r.choice(["w", "w", "W", "W", "k", "d"]), h))
+        L.append("poll %d" % r.choice([1, 2]))
+        if typ != "MB" and r.random() < 0.7:
+            for _ in range(r.choice([1, 2])):
+                L.append("%s %d c:P;%s" % ("trypush" if typ in ("FUB", "FOB") else "push", nid, fin)); nid += 1
+        for _ in range(r.choice([0, 1, 3])):
+            h = r.randrange(nh + cap)
+            L.append("env %s%d" % (r.choice(["w", "W", "W", "k"]), h))
+        L.append("poll %d" % r.choice([1, 2]))
+    L.append("dropcoll")
+    for _ in range(r.choice([0, 2, 5])):
+        L.append("env %s%d" % (r.choice(["w", "W", "d", "k"]), r.randrange(nh + cap)))
+    L += ["cleanup", "endhist"]
+    g.stats["types"][typ] = g.stats["types"].get(typ, 0) + 1
+    return L
+
+
+SCENARIOS = {"budget": scen_budget, "groups": scen_groups, "reuse": scen_reuse}
+
+
 def main():
     ap = argparse.ArgumentParser()
     ap.add_argument("--seed", type=int, default=0)
@@ -262,9 +415,14 @@ def main():
     with open(a.out, "w") as f:
         for i in range(a.count):
             pn = profs[i % len(profs)]
-            g = Gen(rng, PROFILES[pn], stats)
             typ = types[rng.randrange(len(types))]
-            lines = g.history("%s%d_%s_%s" % (a.prefix, i, pn, typ), typ)
+            if pn in SCENARIOS:
+                g = Gen(rng, PROFILES["default"], stats)
+                lines = SCENARIOS[pn](g, "%s%d_%s_%s" % (a.prefix, i, pn, typ), typ)
+                stats["ops"] += len(lines)
+            else:
+                g = Gen(rng, PROFILES[pn], stats)
+                lines = g.history("%s%d_%s_%s" % (a.prefix, i, pn, typ), typ)
             f.write("\n".join(lines) + "\n")
     stats["count"] = a.count
     stats["seed"] = a.seed
